@@ -197,13 +197,17 @@ func R4QueueShape(c *Ctx) {
 			done = true
 			asked, nonEmpty := false, false
 			for _, f := range FactsAt(call.Block()) {
-				if ph, ok := f.Cond.(*ssa.Phi); ok && f.Truth && ph.Comment == "asked_for_jobs" {
-					asked = true
-				}
 				if _, isPhi := f.Cond.(*ssa.Phi); isPhi && f.Truth {
+					// the flag latches: only the constants false (initially) and true (on a
+					// COMMAND_GET_JOB package) flow into it, so a later package cannot reset it
 					srcs, other := trueSources(f.Cond)
 					if len(other) == 0 && len(srcs) > 0 {
 						asked = true
+						for _, sb := range srcs {
+							if sb == nil || !underGetJob(c, sb) {
+								asked = false
+							}
+						}
 					}
 				}
 				if bo, ok := f.Cond.(*ssa.BinOp); ok {
@@ -320,6 +324,28 @@ func R4QueueShape(c *Ctx) {
 }
 
 // sameLoadPath: two loads of the same field path.
+// underGetJob: the block is only reached when the package's command is COMMAND_GET_JOB.
+func underGetJob(c *Ctx, b *ssa.BasicBlock) bool {
+	gj, okc := c.pkgConst(PkgAgent, "COMMAND_GET_JOB")
+	if !okc {
+		return false
+	}
+	for _, f := range FactsAt(b) {
+		bo, ok := f.Cond.(*ssa.BinOp)
+		if !ok {
+			continue
+		}
+		k, ok := ConstInt(bo.Y)
+		if !ok || k != gj {
+			continue
+		}
+		if (bo.Op == token.NEQ && !f.Truth) || (bo.Op == token.EQL && f.Truth) {
+			return true
+		}
+	}
+	return false
+}
+
 func sameLoadPath(a, b ssa.Value) bool {
 	la, ok1 := a.(*ssa.UnOp)
 	lb, ok2 := b.(*ssa.UnOp)
